@@ -307,6 +307,37 @@ func runC10(c *Ctx) {
 		recvD, aD := dels[0].Map, []ssa.Value{dels[0].Key}
 		recvA, aA := addsq[0].Map, []ssa.Value{addsq[0].Key}
 		okPrec = sameOrigins(recvD, recvA) && aD[0] == aA[0]
+		twoPass := false
+		if sameOrigins(recvD, recvA) && aD[0] != aA[0] {
+			// two passes over the pattern's query: first every colliding name is deleted, then all values are added
+			var lD, lA *mapLoop
+			ls := mapLoops(f, vOrigins(oCall(-1, "(*net/url.URL).Query")))
+			for i := range ls {
+				if k := extractOf(ls[i].Next, 1); k != nil {
+					if k == aD[0] {
+						lD = &ls[i]
+					}
+					if k == aA[0] {
+						lA = &ls[i]
+					}
+				}
+			}
+			if lD != nil && lA != nil && lD.Header != lA.Header && sameOrigins(lD.X, lA.X) &&
+				lD.Header.Dominates(lA.Header) && !reachableFrom(lA.Header, lD.Header) {
+				present := factBool(func(v ssa.Value) bool {
+					ex, ok := v.(*ssa.Extract)
+					if !ok || ex.Index != 1 {
+						return false
+					}
+					lk, ok := ex.Tuple.(*ssa.Lookup)
+					return ok && lk.CommaOk && sameOrigins(lk.X, recvD)
+				}, false)
+				// every iteration of the first pass that finds the name present deletes it
+				if !pathExists(f, lD.Next, lD.Next, present, isOneOf(dels[0].In)) {
+					twoPass, okPrec = true, true
+				}
+			}
+		}
 		okB, _ := allOrigins(recvD, oCallWhere(-1, "(*net/url.URL).Query", func(q *ssa.Call) bool {
 			okk, _ := allOrigins(q.Call.Args[0], oCallWhere(0, "net/url.Parse", func(pp *ssa.Call) bool { return pp.Call.Args[0] == ssa.Value(paramOf(f, 1)) }))
 			return okk
@@ -314,7 +345,7 @@ func runC10(c *Ctx) {
 		okPrec = okPrec && okB
 		// present -> Del before Add
 		for _, l := range mapLoops(f, vOrigins(oCall(-1, "(*net/url.URL).Query"))) {
-			if !l.Header.Dominates(addsq[0].In.Block()) {
+			if twoPass || !l.Header.Dominates(addsq[0].In.Block()) {
 				continue
 			}
 			present := factBool(func(v ssa.Value) bool {
@@ -342,9 +373,21 @@ func runC10(c *Ctx) {
 		}))
 		c.obI("R10.3", st, "scheme-from-pickScheme", ok, "the URL scheme is pickScheme(operation.Schemes)", "")
 	}
-	for _, fld := range []struct{ t, f string }{{"net/url.URL", "Host"}, {"net/http.Request", "Host"}} {
+	for _, fld := range []struct{ t, f string }{{"net/url.URL", "Host"}, {"net/http.Request", "Host"}, {"net/url.URL", "Scheme"}} {
+		var sts []ssa.Instruction
 		for _, st := range fieldStores(ch, fld.t, fld.f) {
-			c.obI("R10.3", st, "host-from-runtime", vFieldLoadO("rt/client.Runtime", "Host")(st.Val), "host is the runtime's host", "")
+			if fld.f == "Host" {
+				c.obI("R10.3", st, "host-from-runtime", vFieldLoadO("rt/client.Runtime", "Host")(st.Val), "host is the runtime's host", "")
+			}
+			sts = append(sts, st)
+		}
+		// … assigned UNCONDITIONALLY: whatever the built URL happens to carry (a "//host" a path value produced), every
+		// request handed out goes to the runtime's host under the picked scheme
+		for _, r := range realReturns(ch) {
+			if len(r.Results) != 3 || isNilConst(resOf(r, 1)) || len(sts) == 0 {
+				continue
+			}
+			c.obI("R10.3", r, "target-"+strings.ToLower(fld.f)+"-always-assigned", !pathExists(ch, nil, r, nil, isOneOf(sts...)), "every request createHttpRequest hands out has had "+fld.t+"."+fld.f+" assigned from the runtime, on every path", "a request can be handed out with the "+fld.f+" the URL builder left in it")
 		}
 	}
 	ps := p.Fn("(*rt/client.Runtime).pickScheme")
